@@ -264,7 +264,7 @@ Proof.
   - intros j Hj. unfold rd. simpl. rewrite lookup_put_same. erewrite rd_dense; [|exact Ok|reflexivity|exact Hj]. reflexivity.
   - intros b j Nb. unfold rd. simpl. rewrite lookup_put_other by exact Nb.
     destruct (lookup b (attrs s)) as [bt|] eqn:Lb; [|reflexivity].
-    unfold mk_default in M. destruct d as [c|].
+    unfold mk_default, default_is_scalar in M. destruct d as [c|].
     + destruct (kind_of c); [|discriminate]. destruct (default_type_bad _ _); inversion M; subst. reflexivity.
     + destruct (k =? 1); inversion M; subst; [reflexivity|]. eapply rd_attr_app. eapply H1; eauto.
 Qed.
